@@ -1,10 +1,18 @@
 ---------------------------- MODULE DomTreeWalk ----------------------------
 (* Binder W for DomTree: random behaviours (tlc -simulate) with a history variable; the
-   history is printed when the behaviour reaches its last step. *)
+   history is printed when the behaviour reaches its last step.  The history keeps the raw
+   variable values (cheap); the projection is computed only when a behaviour is printed. *)
 EXTENDS DomTree, Json
 VARIABLE hist
 WInit == Init /\ hist = <<>>
-WNext == Next /\ hist' = Append(hist, <<last', ProjNext>>)
+\* TLC's simulator evaluates invariants on every generated successor, so the last step of a behaviour is a
+\* single deterministic Finish step: the history is then printed exactly once per behaviour.
+WNext == \/ /\ nops < MaxOps - 1 /\ Next
+            /\ hist' = Append(hist, [op |-> last', k |-> kind', o |-> owner', p |-> parent', c |-> kids', n |-> name',
+                                       v |-> data', a |-> attrs', e |-> ownerEl', nx |-> nextId'])
+         \/ /\ nops = MaxOps - 1 /\ nops' = MaxOps /\ UNCHANGED <<tree, last, hist>>
 WSpec == WInit /\ [][WNext]_<<vars, hist>>
-EmitW == (nops = MaxOps) => PrintT(ToJson(hist))
+ProjOf(h) == [i \in 1..(h.nx - 1) |-> [k |-> h.k[i], o |-> h.o[i], p |-> h.p[i], c |-> h.c[i], n |-> h.n[i],
+                                       v |-> h.v[i], a |-> h.a[i], e |-> h.e[i]]]
+EmitW == (nops = MaxOps) => PrintT(ToJson([i \in 1..Len(hist) |-> <<hist[i].op, ProjOf(hist[i])>>]))
 =============================================================================
